@@ -6,7 +6,7 @@ import io, os, tempfile, hashlib
 ID = 'C17'
 ESCALATE_SKIP_OPS = ('bigfile',)   # 100 MiB: thorough tier only
 COQ_PROPS = ['Props/C17.v']
-COQ_IMPORTS = ['Prims', 'CaseLib', 'BitsCore', 'Search', 'Store']
+COQ_IMPORTS = ['Prims', 'CaseLib', 'BitsCore', 'Search', 'Store', 'Serial2']
 RULE = ('all lengths 0..7 mod 8 x classes for tobytes/bytes()/.bytes/tofile; all (offset, length) windows incl. None over small byte sources (exhaustive for sources of 0..3 bytes) through '
         'bytes=, BytesIO, file handle, filename=, bitarray=; chunked writing via cut(n)+tobytes for chunk sizes 8..64; Array tobytes/tofile/fromfile; thorough adds one tofile of 100 MiB + 13 bits '
         'into a hashing sink; non-trivial = non-empty window not equal to the whole source; distinct by arguments')
@@ -214,7 +214,7 @@ def coq_check(c, obs):
     if op == 'tobytes' and obs[0] == 'ok':
         return f"zlist_eqb (tobytes {cbits(c['bits'])}) {clist(obs[1][0], cz)} && res_eqb zlist_eqb (bs_getbytes {cbits(c['bits'])}) {cres(tuple(obs[1][4]), lambda l: clist(l, cz))}"
     if op == 'cutbytes':
-        return f"res_eqb zlist_eqb (tofile {cbits(c['bits'])} {cz(c['chunk'])}) {cres(obs, lambda l: clist(l, cz))}"
+        return f"res_eqb zlist_eqb (tofile2 {cbits(c['bits'])} {cz(c['chunk'])}) {cres(obs, lambda l: clist(l, cz))}"
     if op == 'window':
         L, O = cob(c['length']), cob(c['offset'])
         bits = ''.join(format(x, '08b') for x in c['src'])
@@ -223,7 +223,7 @@ def coq_check(c, obs):
         if c['via'] == 'bitarray': return f"rbits_eqb (setbitarray {cbits(bits)} {L} {O}) {cres(obs, cbits)}"
         return f"res_eqb bits_eqb (do s <- setfile {cbits(bits)} {L} {O}; Ok (bits_of s)) {cres(obs, cbits)}"
     if op == 'tofile_chunk' and obs[0] == 'ok':
-        return f"res_eqb zlist_eqb (tofile {cbits(c['bits'])} {cz(c['chunk'])}) (Ok {clist(obs[1][0], cz)})"
+        return f"res_eqb zlist_eqb (tofile2 {cbits(c['bits'])} {cz(c['chunk'])}) (Ok {clist(obs[1][0], cz)})"
     if op == 'chunkconst' and obs[0] == 'ok':
         return f"(TOFILE_CHUNK =? {obs[1]})"
     return None
